@@ -289,7 +289,8 @@ TIE_NAMES = {'encode_varint': 'utils.encode_varint', 'prepend_compact_size': 'ut
              'tx_parts': 'TxOutput.to_bytes and TxInput.to_bytes (modulo Script.to_bytes)',
              'tx_whole': 'TxWitnessInput.to_bytes and Transaction.to_bytes (loops included)',
              'tx_ids': 'Transaction.get_txid / _get_hash (get_wtxid) / get_size',
-             'segwit_digest': 'Transaction.get_transaction_segwit_digest (BIP143, whole function)'}
+             'segwit_digest': 'Transaction.get_transaction_segwit_digest (BIP143, whole function)',
+             'taproot_digest': 'Transaction.get_transaction_taproot_digest (BIP341/342, whole function)'}
 
 
 def with_ties(ties, level_text, level_note, technique):
